@@ -52,6 +52,9 @@ func (builder *Builder) DeepCopy() Builder {
 	for _, opt := range builder.Options {
 		clone.Options = append(clone.Options, opt.DeepCopy())
 	}
+	for _, factory := range builder.Factories {
+		clone.Factories = append(clone.Factories, factory.DeepCopy())
+	}
 
 	return clone
 }
